@@ -2,6 +2,8 @@
 # confirm_seed.sh <name> <patch.diff> <demo.diff> [base-commit]
 # Confirms in a scratch worktree that (A) demo alone passes on the base tree, (B) with the patch every pre-existing test
 # still passes and at least one demo test fails.  Writes <seeded dir>/confirm.log; removes the worktree afterwards.
+# SEED_CFG=1: the demo tests are #[cfg(flounder_verif)]-gated and share a process-wide hook: build with the cfg, one test
+# thread, and additionally (C) run the patched tree with the guard off.
 set -u
 name=$1; patch=$2; demo=$3; base=${4:-HEAD}
 wt=/tmp/seedchk_$name
@@ -11,16 +13,22 @@ git -C /repo worktree remove --force "$wt" 2>/dev/null
 git -C /repo worktree add -q --detach "$wt" "$base" || exit 2
 cd "$wt" || exit 2
 export CARGO_NET_OFFLINE=true CARGO_TARGET_DIR=$wt/target
+tt=""; if [ "${SEED_CFG:-0}" = 1 ]; then export RUSTFLAGS="--cfg flounder_verif"; tt="-- --test-threads=1"; fi
 {
 echo "== base $(git rev-parse --short HEAD)"
 git apply "$demo" || echo "DEMO-APPLY-FAILED"
 echo "== A: demo only"
-cargo test --offline 2>&1 | grep -E "^test result|FAILED|failed|panicked" | head -20
+cargo test --offline $tt 2>&1 | grep -E "^test result|FAILED|failed|panicked" | head -20
 git checkout -q -- . ; git clean -fdq -e target
 git apply "$patch" || echo "PATCH-APPLY-FAILED"
 git apply "$demo" || echo "DEMO-APPLY-AFTER-PATCH-FAILED"
 echo "== B: patch + demo"
-cargo test --offline 2>&1 | grep -E "^test result|^test .* FAILED|^failures:|^    [a-z_:0-9]+$" | head -40
+cargo test --offline $tt 2>&1 | grep -E "^test result|^test .* FAILED|^failures:|^    [a-z_:0-9]+$" | head -40
+if [ "${SEED_CFG:-0}" = 1 ]; then
+echo "== C: patch only, guard off"
+git checkout -q -- . ; git clean -fdq -e target; git apply "$patch"
+RUSTFLAGS= cargo test --offline 2>&1 | grep -E "^test result|FAILED" | head
+fi
 } > "$out/confirm.log" 2>&1
 cd /; git -C /repo worktree remove --force "$wt"
 # report what the log says instead of an unconditional "confirmed"
